@@ -2,6 +2,7 @@ package constraint
 
 import (
 	"strconv"
+	"unicode/utf8"
 
 	schema "github.com/jsightapi/jsight-schema-core"
 	"github.com/jsightapi/jsight-schema-core/bytes"
@@ -39,7 +40,9 @@ func (c MinLength) String() string {
 }
 
 func (c MinLength) Validate(value bytes.Bytes) {
-	length := uint(value.Unquote().Len())
+	// The length of a string is the number of its characters, not of the bytes
+	// of its UTF-8 encoding.
+	length := uint(utf8.RuneCount(value.Unquote().Data()))
 	if length < c.value {
 		panic(errs.ErrConstraintStringLengthValidation.F(
 			MinLengthConstraintType.String(),
